@@ -106,7 +106,9 @@ def cargo_build(packages, flavour="native", extra_env=None, timeout=3600):
 
 def build_cli(timeout=3600):
     """The real isograph_cli from /repo's working tree with the guard on."""
-    tdir = TARGET + "-cli"
+    # VERIF_REPO (development aid: seeded-change trials on a scratch worktree) gets its own target dir so that
+    # the binary built from /repo is never overwritten
+    tdir = TARGET + "-cli" + ("" if os.path.realpath(REPO) == "/repo" else "-alt")
     # no debug info: the 180 MB debug binary costs ~0.4 s per spawn; panic locations do not need it
     env = {"RUSTFLAGS": f"--cfg {GUARD}", "CARGO_TARGET_DIR": tdir, "CARGO_PROFILE_DEV_DEBUG": "0"}
     cmd = ["cargo", "build", "--offline", "-p", "isograph_cli",
